@@ -129,14 +129,21 @@ def isMasterCloseE : EEv → Bool
   | _ => false
 
 /-- a job with an injected task failure (hook H2 log required): the log must be a run of the error-path machines -/
-def validateErr (d : Dist) (ncb : Bool) (fs : List Bool) (raw : List RawEv) (bind : Nat → Nat) :
+def validateErr (d : Dist) (ns ncb : Bool) (fs : List Bool) (raw : List RawEv) (bind : Nat → Nat) :
     Except String (List Bool) := do
   let evs := raw.filterMap (toEEv bind)
   let pre := evs.takeWhile isMasterCloseE
   let fs1 := pre.foldl (fun fs e => match e with | .ok (.fclose _ k) => resetStep fs k | _ => fs) fs
   let evs := evs.drop pre.length
   if fs1 ≠ resetAll fs then throw "a fence is still open from the previous job when the protocol starts"
-  if d.strategy = 4 then
+  if !ns then
+    -- jobs without scatter: the worker's own `open(false)` is the only fence event besides the master's
+    let c : NCfg := ⟨d.nW, ncb⟩
+    let s ← feedE c.estep evs 0 { c.einit with base := c.initFrom fs1 }
+    let opened := evs.filterMap fun e => match e with | .fopenF _ f => some f | _ => none
+    let fs2 := opened.foldl (fun fs f => fs.set f true) (fs1.set 0 s.base.front)
+    if NCfg.efinal s then return fs2 else throw "log ends in a non-final state"
+  else if d.strategy = 4 then
     let c := CCfg.ofDist d ncb
     let s ← feedE c.estep evs 0 { c.einit with base := c.initFrom fs1 }
     if CCfg.efinal s then return persist d.nFences s.base.fence else throw "log ends in a non-final state"
@@ -144,6 +151,70 @@ def validateErr (d : Dist) (ncb : Bool) (fs : List Bool) (raw : List RawEv) (bin
     let c := LCfg.ofDist d ncb
     let s ← feedE c.estep evs 0 { c.einit with base := c.initFrom fs1 }
     if LCfg.efinal s then return persist d.nFences s.base.fence else throw "log ends in a non-final state"
+
+/-- the refined event list (combine phase in detail).  With hook H2b the lock events are in the log (20 acquired,
+21 about to release); otherwise the mutex probe of the instrumented job (14: held while the body runs) stands in:
+`combine enter` = lock ; body begins, `combine leave` = body ends ; unlock.  A body that runs without the mutex is
+rejected. -/
+def toXEvs (bind : Nat → Nat) (raw : List RawEv) : Except String (List XEv) := do
+  let h2b := raw.any (·.kind = 20)
+  let mut out : List XEv := []
+  for e in raw do
+    let t := bind e.t
+    match e.kind with
+    | 20 => out := out ++ [XEv.lock t]
+    | 21 => out := out ++ [XEv.unlock t]
+    | 5 => out := out ++ (if h2b then [XEv.cbeg t] else [XEv.lock t, XEv.cbeg t])
+    | 6 => out := out ++ (if h2b then [XEv.cend t] else [XEv.cend t, XEv.unlock t])
+    | 14 => if e.a = 0 then throw s!"worker {t} runs the body of combine() without holding _thread_mutex"
+    | _ => match toEv bind e with
+      | some ev => out := out ++ [XEv.base ev]
+      | none => pure ()
+  return out
+
+def feedX (step : σ → XEv → Option σ) : List XEv → Nat → σ → Except String σ
+  | [], _, s => .ok s
+  | e :: es, k, s =>
+    match step s e with
+    | some s' => feedX step es (k + 1) s'
+    | none => .error s!"event {k} ({repr e}) is not a transition of the model (combine phase in detail)"
+
+def isMasterCloseX : XEv → Bool
+  | .base (.fclose 0 _) => true
+  | _ => false
+
+/-- every worker must have combined exactly once -/
+def checkLog (d : Dist) (ncb : Bool) (log : List Nat) : Except String Unit :=
+  let want := if ncb then (List.range d.nW).map (· + 1) else []
+  if log.length = want.length ∧ want.all (log.contains ·) then .ok ()
+  else .error s!"combine() bodies completed by {log}, expected every worker exactly once"
+
+/-- non-failing job on worker threads with the complete hook-H2 log: replay on the refined machines -/
+def validateX (d : Dist) (ns ncb : Bool) (fs : List Bool) (raw : List RawEv) (bind : Nat → Nat) :
+    Except String (List Bool) := do
+  let evs ← toXEvs bind raw
+  let pre := evs.takeWhile isMasterCloseX
+  let fs1 := pre.foldl (fun fs e => match e with | .base (.fclose _ k) => resetStep fs k | _ => fs) fs
+  let evs := evs.drop pre.length
+  match (fs1.zipIdx.find? (fun p => p.1)) with
+  | some (_, k) => throw s!"fence {k} is still open from the previous job when the protocol starts"
+  | none => pure ()
+  if fs1 ≠ resetAll fs then throw "fence vector after the reset loop differs from the model's"
+  if !ns then
+    let c : NCfg := ⟨d.nW, ncb⟩
+    let s ← feedX c.xstep evs 0 (xinit (c.initFrom fs1))
+    checkLog d ncb s.log
+    if NCfg.final s.base then return fs1.set 0 s.base.front else throw "log ends in a non-final state"
+  else if d.strategy = 4 then
+    let c := CCfg.ofDist d ncb
+    let s ← feedX c.xstep evs 0 (xinit (c.initFrom fs1))
+    checkLog d ncb s.log
+    if CCfg.final s.base then return persist d.nFences s.base.fence else throw "log ends in a non-final state"
+  else
+    let c := LCfg.ofDist d ncb
+    let s ← feedX c.xstep evs 0 (xinit (c.initFrom fs1))
+    checkLog d ncb s.log
+    if LCfg.final s.base then return persist d.nFences s.base.fence else throw "log ends in a non-final state"
 
 def isMasterClose : Ev → Bool
   | .fclose 0 _ => true
@@ -165,10 +236,11 @@ def validate (d : Dist) (ns ncb hooks failing : Bool) (fs : List Bool) (raw : Li
   if failing then
     -- error path: modelled for scatter jobs on worker threads with the complete (hook H2) log; otherwise only the
     -- outcome (termination, results of the following jobs) is checked
-    if hooks ∧ ns ∧ d.nW ≠ 0 ∧ !d.elemIdx.isEmpty then return (← validateErr d ncb fs raw bind)
+    if hooks ∧ d.nW ≠ 0 ∧ !d.elemIdx.isEmpty then return (← validateErr d ns ncb fs raw bind)
     else if d.elemIdx.isEmpty then return fs
     else if d.nW = 0 then return (List.replicate d.nFences true)
     else return (resetAll fs).set 0 true
+  if hooks ∧ d.nW ≠ 0 ∧ !d.elemIdx.isEmpty then return (← validateX d ns ncb fs raw bind)
   let evs := raw.filterMap (toEv bind)
   -- without hook H2 only the job-level events are in the log (plus the final join marker)
   let evs := if hooks then evs else evs.filter (!isInternal ·)
@@ -211,6 +283,77 @@ def rawEvP : P RawEv := do
 def showSeqs (l : List (List Nat)) : String :=
   " ".intercalate (toString l.length :: l.map showNatsL)
 
+/-- validates the recorded jobs of one assembler one after the other; `specs` = (scatter, combine, failing) per job -/
+def traceBody (inp : Input) (specs : List (Bool × Bool × Bool)) : P String := do
+  let r ← tok
+  if r ≠ "R" then pure "REJECT abnormal-run"
+  else
+    let _nw ← nat; let _reps ← nat
+    match compile inp.strategy inp.maxW inp.nvt inp.cells inp.sel with
+    | none => pure "REJECT model-abort"
+    | some d =>
+      let mut out := s!"T {d.nW} {specs.length}"
+      let mut bad : Option String := none
+      -- `compile()` creates the fences closed; from then on their state persists from job to job
+      let mut fs : List Bool := List.replicate d.nFences false
+      let mut rep := 0
+      for (nsr, ncr, failing) in specs do
+        -- skip the implementation's deterministic part, read the events
+        let nseq ← nat
+        let _ ← many nseq natList
+        let _ ← natList
+        let _ ← nat; let _ ← nat
+        let hooks ← nat
+        let nev ← nat
+        let raw ← many nev rawEvP
+        if bad.isNone then
+          match validate d nsr ncr (hooks != 0) failing fs raw with
+          | .ok fs' => fs := fs'
+          | .error e => bad := some s!"REJECT rep {rep}: {e}"
+        let ncomb := if ncr ∧ !d.elemIdx.isEmpty then (if d.nW = 0 then 1 else d.nW) else 0
+        if failing then out := out ++ " F"
+        else out := out ++ s!" {showSeqs (expectedSeqs d nsr)} {showNatsL (expectedVec inp nsr)} {expectedIntegral inp ncr} {ncomb}"
+        rep := rep + 1
+      match bad with
+      | some b => pure b
+      | none => pure out
+
+/-! ### exhaustive exploration of a small instance (cross-check with TLC, supporting evidence) -/
+
+def phCode : Ph → Nat
+  | .front => 0 | .idle => 1 | .ready => 2 | .insc => 3 | .toOpen => 4 | .back => 5 | .toOpen2 => 6
+  | .preComb => 7 | .inComb => 8 | .done => 9
+
+def mphCode : MPh → Nat
+  | .openFront => 0 | .wait1 => 1 | .close1 => 2 | .closeFront => 3 | .openBack => 4 | .wait2 => 5 | .close2 => 6
+  | .closeBack => 7 | .join => 8 | .done => 9
+
+def b2n (b : Bool) : Nat := if b then 1 else 0
+
+def lKey (c : LCfg) (s : LSt) : List Nat :=
+  (List.range (c.n + 2)).map (fun f => b2n (s.fence f)) ++ (List.range (c.n + 1)).map (fun t => phCode (s.ph t)) ++
+    (List.range c.n).map (fun k => s.pos (k + 1)) ++ [b2n s.mutex]
+
+def cKey (c : CCfg) (s : CSt) : List Nat :=
+  (List.range (c.n + 2)).map (fun f => b2n (s.fence f)) ++ (List.range c.n).map (fun k => phCode (s.ph (k + 1))) ++
+    (List.range c.n).map (fun k => s.pos (k + 1)) ++ (List.range (c.n + 1)).map (fun t => s.col t) ++
+    [mphCode s.mph, s.mi, b2n s.mutex]
+
+/-- breadth-first search over `step` (every thread's `next` event); returns (#distinct states, #transitions,
+#final states, #non-final states without successor) -/
+def explore (m : Machine σ) (key : σ → List Nat) (fuel : Nat) (s0 : σ) : Nat × Nat × Nat × Nat :=
+  let rec go : Nat → List σ → List (List Nat) → Nat → Nat → Nat → Nat × Nat × Nat × Nat
+    | 0, _, seen, tr, fin, dead => (seen.length, tr, fin, dead)
+    | _, [], seen, tr, fin, dead => (seen.length, tr, fin, dead)
+    | fuel + 1, s :: rest, seen, tr, fin, dead =>
+      let succ := (List.range (m.n + 1)).filterMap fun t => (m.next s t).bind (m.step s)
+      let (rest', seen') := succ.foldl (fun (acc : List σ × List (List Nat)) s' =>
+        let k := key s'
+        if acc.2.contains k then acc else (acc.1 ++ [s'], k :: acc.2)) (rest, seen)
+      go fuel rest' seen' (tr + succ.length) (fin + (if m.final s then 1 else 0))
+        (dead + (if succ.isEmpty ∧ !m.final s then 1 else 0))
+  go fuel [s0] [key s0] 0 0 0
+
 def handle : P String := do
   let op ← tok
   match op with
@@ -230,39 +373,36 @@ def handle : P String := do
         pure (bar ≠ "0", b)
       else pure (false, bar) : P (Bool × String))
     if bar ≠ "|" then throw "missing |"
-    let r ← tok
-    if r ≠ "R" then pure "REJECT abnormal-run"
+    -- job types per repetition (2 = alternate: even repetitions scatter / combine)
+    let specs := (List.range reps).map fun rep =>
+      (if ns = 2 then rep % 2 == 0 else ns != 0, if ncb = 2 then rep % 2 == 0 else ncb != 0, failing && rep == 0)
+    traceBody inp specs
+  | "explore" =>
+    -- explore L n comb <le> <tl>   |   explore C n comb <ce> : full state graph of a small instance
+    let kind ← tok
+    let n ← nat; let comb ← nat
+    if kind = "L" then
+      let le ← natList; let tl ← natList
+      let c := LCfg.ofFns n (fun k => le.getD k 0) (fun k => tl.getD k 0) (fun p => p) (comb != 0)
+      let r := explore (lMachine c) (lKey c) 2000000 c.init
+      pure s!"X {r.1} {r.2.1} {r.2.2.1} {r.2.2.2}"
     else
-      let _nw ← nat; let _reps ← nat
-      match compile inp.strategy inp.maxW inp.nvt inp.cells inp.sel with
-      | none => pure "REJECT model-abort"
-      | some d =>
-        let mut out := s!"T {d.nW} {reps}"
-        let mut bad : Option String := none
-        -- `compile()` creates the fences closed; from then on their state persists from job to job
-        let mut fs : List Bool := List.replicate d.nFences false
-        for rep in List.range reps do
-          -- job type of this repetition (2 = alternate: even repetitions scatter / combine)
-          let nsr := if ns = 2 then rep % 2 == 0 else ns != 0
-          let ncr := if ncb = 2 then rep % 2 == 0 else ncb != 0
-          -- skip the implementation's deterministic part, read the events
-          let nseq ← nat
-          let _ ← many nseq natList
-          let _ ← natList
-          let _ ← nat; let _ ← nat
-          let hooks ← nat
-          let nev ← nat
-          let raw ← many nev rawEvP
-          if bad.isNone then
-            match validate d nsr ncr (hooks != 0) (failing ∧ rep = 0) fs raw with
-            | .ok fs' => fs := fs'
-            | .error e => bad := some s!"REJECT rep {rep}: {e}"
-          let ncomb := if ncr ∧ !d.elemIdx.isEmpty then (if d.nW = 0 then 1 else d.nW) else 0
-          if failing ∧ rep = 0 then out := out ++ " F"
-          else out := out ++ s!" {showSeqs (expectedSeqs d nsr)} {showNatsL (expectedVec inp nsr)} {expectedIntegral inp ncr} {ncomb}"
-        match bad with
-        | some b => pure b
-        | none => pure out
+      let ce ← natList
+      let d : Dist := ⟨4, n, List.range (ce.getLastD 0), [], [], ce, n + 2⟩
+      let c := CCfg.ofDist d (comb != 0)
+      let r := explore (cMachine c) (cKey c) 2000000 c.init
+      pure s!"X {r.1} {r.2.1} {r.2.2.1} {r.2.2.2}"
+  | "strace" =>
+    -- an explicit session: `pseed njobs {ns ncb fwhere fcell}*`
+    let inp ← inputP
+    let _pseed ← nat
+    let nj ← nat
+    let specs ← many nj (do
+      let a ← nat; let b ← nat; let fw ← nat; let _fc ← nat
+      pure (a != 0, b != 0, fw != 0))
+    let bar ← tok
+    if bar ≠ "|" then throw "missing |"
+    traceBody inp specs
   | _ => throw s!"unknown op {op}"
 
 def step (ts : Toks) : String :=
